@@ -1,0 +1,29 @@
+//go:build verif
+
+package packet
+
+// Round-trip lemmas (govc, /verif). Comments only. Each lemma chains the
+// layout an Encode contract guarantees into what the Decode contract of the
+// same type needs: the encoded bytes are a valid packet whose declared extent
+// is the whole buffer and whose fields read back as the original ones.
+//
+//@ lemma roundtrip_naked(b []byte, t int)
+//@   requires len(b) == 2 && 12 <= t && t <= 14 && b[0] == t*16 && b[1] == 0
+//@   ensures [valid]  hdr_ok(b, t) && rlen(b) == 0
+//@   ensures [extent] hlen(b) + rlen(b) == 2
+//
+//@ lemma roundtrip_identified(b []byte, t int, id int)
+//@   requires len(b) == 4 && (t == 4 || t == 5 || t == 6 || t == 7 || t == 11) && 1 <= id && id <= 65535 && ident_layout(b, t, id)
+//@   ensures [valid]  ident_valid(b, t)
+//@   ensures [extent] hlen(b) + rlen(b) == 4
+//@   ensures [id]     be16(b, hlen(b)) == id
+//
+//@ lemma roundtrip_publish(b []byte, p *Publish)
+//@   requires wf_publish(p) && len(b) == 1 + vlen(pubrl(p)) + pubrl(p) && publish_layout(b, p)
+//@   ensures [hl]      hlen(b) == 1 + vlen(pubrl(p)) && rlen(b) == pubrl(p)
+//@   ensures [valid]   publish_valid(b)
+//@   ensures [extent]  hlen(b) + rlen(b) == len(b)
+//@   ensures [flags]   ((b[0] % 16) / 8 == 1 <==> p.Dup) && (b[0] % 2 == 1 <==> p.Message.Retain) && pub_qos(b) == p.Message.QOS
+//@   ensures [tlen]    pub_tl(b) == len(p.Message.Topic)
+//@   ensures [id]      p.Message.QOS > 0 ==> be16(b, hlen(b) + 2 + pub_tl(b)) == p.ID
+//@   ensures [plen]    rlen(b) - 2 - pub_tl(b) - pub_idl(b) == len(p.Message.Payload)
